@@ -230,9 +230,15 @@ def _hull(pts):
     return lo[:-1] + up[:-1]
 
 
+def _fl(v):
+    """coordinates are metres: magnitudes below 1e-100 m (boundary values of the float strategies) are flushed to zero; the
+    product of two such differences underflows in any float64 cross product"""
+    return 0.0 if abs(v) < 1e-100 else float(v)
+
+
 @st.composite
 def _case(draw):
-    poly = draw(_poly_strategy())
+    poly = [[_fl(x), _fl(y)] for x, y in draw(_poly_strategy())]
     n = len(poly)
     tol = draw(st.sampled_from(TOLS))
     mode = draw(st.sampled_from(["level", "edge", "edge", "box", "vertex", "mid", "comb", "comb", "levelcomb", "nearlevel",
@@ -275,7 +281,7 @@ def _case(draw):
         i = draw(st.integers(0, n - 1))
         a, b = poly[i - 1], poly[i]
         p = [(a[0] + b[0]) / 2, (a[1] + b[1]) / 2]
-    return {"poly": poly, "point": p, "tol": tol, "mode": mode}
+    return {"poly": poly, "point": [_fl(p[0]), _fl(p[1])], "tol": tol, "mode": mode}
 
 
 def check_random(case, rec):
